@@ -1181,6 +1181,13 @@ func (p *parser) pushScopeForParsePass(kind js_ast.ScopeKind, loc logger.Loc) in
 		scope.StrictMode = parent.StrictMode
 		scope.UseStrictLoc = parent.UseStrictLoc
 	}
+
+	// All code inside a class is strict mode code. This must already be known
+	// when symbols are hoisted (between the parse pass and the visit pass) so
+	// that block-level functions inside a class aren't hoisted out of their block.
+	if kind == js_ast.ScopeClassBody && scope.StrictMode == js_ast.SloppyMode {
+		scope.StrictMode = js_ast.ImplicitStrictModeClass
+	}
 	p.currentScope = scope
 
 	// Enforce that scope locations are strictly increasing to help catch bugs
